@@ -2385,8 +2385,13 @@ fn emit_eval(sink: &mut Sink, meta: &mut Meta, tera: &Tera, s: &Sx, env: &[(Stri
         Outcome::Panic(_) => "impl:panic",
     };
     let shape_tag = format!("shape:{}", shape.split(" @ ").next().unwrap_or("?").trim());
-    let tags = [if print { "mode:print" } else { "mode:probe" }, tag_res, shape_tag.as_str()];
-    sink.push(g, desc, s.n_nodes() >= 2 && s.has_var(), None, &tags);
+    let mut tags = vec![if print { "mode:print" } else { "mode:probe" }, tag_res, shape_tag.as_str()];
+    // the parser rejects a unary operand right of `~`: outside the evaluator's domain (counted)
+    let outside = s.has_concat_unary();
+    if outside {
+        tags.push("domain:outside(unary-right-of-~)");
+    }
+    sink.push(g, desc, !outside && s.n_nodes() >= 2 && s.has_var(), None, &tags);
 }
 
 /// random expressions over the documented fragment, with registered builtins only
